@@ -245,6 +245,8 @@ func runC11(r *Run) {
 	c11NestedMapWrites(r)
 	r.rule("C11.R9", "a dogfood parameter update cannot store a zero maximum validator count, unbonding period or history size (zero validators = an empty validator set, which CometBFT refuses): a submitted zero is replaced by the stored value before SetParams, and genesis validation rejects zero", 6)
 	c11DogfoodParams(r)
+	r.rule("C11.R10", "powers of ten built as 256-bit integers (NewIntWithDecimal) have an exponent that is a sum of asset and price decimals, and both are bounded where they are stored (MaxDecimal + MaxTokenDecimal <= 77)", 9)
+	c11Exponents(r)
 	c11Bounds(r)
 	if r.Prop == "C11" {
 		sub := NewRun(r.W, "C17", r.Tier, r.Seed)
